@@ -21,8 +21,13 @@
 (* catalog.py  Catalog.from_random        FRStart    RandomReader(...)     *)
 (*               create_patch_centers     FRCenters  probe-size rule +     *)
 (*                                                   reader.get_probe      *)
-(*               write_patches: iter()    FRIter                           *)
-(*               for chunk in reader      FRNext / FRStop                  *)
+(*               write_patches:                                            *)
+(*                 chunk_iter = iter(rd)  FRIter                           *)
+(*                 for chunk in chunk_iter  FRFor  (the for statement      *)
+(*                                          calls iter() once more:        *)
+(*                                          __iter__ returns self and      *)
+(*                                          resets + reseeds again)        *)
+(*                   (loop body)          FRNext / FRStop                  *)
 (*                                                                         *)
 (* The random stream is abstracted to what determines it: after            *)
 (* reseed() the numpy Generator is a function of (seed, spawn index of     *)
@@ -76,7 +81,7 @@ VARIABLES sc,     \* scenario (constant during a behaviour)
           glob,   \* number of draws taken from the process-global RNG so far
           rd,     \* the reader in use: [st, N, C, pos]; st in none|ready|iter|done
           urd,    \* the user's RandomReader while from_random runs on its own one
-          pc,     \* idle | fr_centers | fr_iter | fr_next   (inside from_random)
+          pc,     \* idle | fr_centers | fr_iter | fr_for | fr_next   (inside from_random)
           hist,   \* sequence of operation entries
           nops    \* public operations performed
 
@@ -261,13 +266,16 @@ FRCenters ==                        \* create_patch_centers(rand_iter, patch_num
                  /\ rd' = rd
     /\ UNCHANGED <<sc, urd, nops>>
 
-FRIter ==                           \* write_patches: iter(reader)
-    /\ pc = "fr_iter"
+FRIterStep(here, there) ==
+    /\ pc = here
     /\ rd' = IterReset(rd)
     /\ gen' = IterGen
     /\ hist' = SetLast([Last EXCEPT !.ev = @ \o IterEv])
-    /\ pc' = "fr_next"
+    /\ pc' = there
     /\ UNCHANGED <<sc, glob, urd, nops>>
+
+FRIter == FRIterStep("fr_iter", "fr_for")    \* write_patches: chunk_iter = iter(reader)
+FRFor  == FRIterStep("fr_for", "fr_next")    \* for chunk in chunk_iter: implicit iter(chunk_iter)
 
 FRNext ==                           \* for chunk in reader: split, write
     /\ pc = "fr_next" /\ rd.pos < rd.N
@@ -291,7 +299,7 @@ Done      == nops = MaxOps /\ Quiescent
 
 Next == \/ SomeCall \/ SomeFrame \/ SomeReseed
         \/ NewReader \/ SomeProbe \/ IterStart \/ NextChunk \/ StopPass \/ Abandon
-        \/ FRStart \/ FRCenters \/ FRIter \/ FRNext \/ FRStop
+        \/ FRStart \/ FRCenters \/ FRIter \/ FRFor \/ FRNext \/ FRStop
         \/ (Done /\ UNCHANGED vars)
 
 Spec == Init /\ [][Next]_vars /\ WF_vars(Next)
@@ -360,7 +368,7 @@ CreateNeverRejected ==
 TypeOK == /\ sc \in Scenarios
           /\ gen.seed \in Seeds /\ gen.spawn \in Nat /\ glob \in Nat
           /\ rd.st \in {"none", "ready", "iter", "done"}
-          /\ pc \in {"idle", "fr_centers", "fr_iter", "fr_next"}
+          /\ pc \in {"idle", "fr_centers", "fr_iter", "fr_for", "fr_next"}
           /\ nops \in 0..MaxOps
           /\ Len(hist) <= MaxOps
 
